@@ -212,6 +212,10 @@ def _explore(out, tier, seed, facts, replay):
         n = 40 if tier == "quick" else 500
         for ci in range(n):
             d = gen_abstract(rng)
+            if ci == 0:
+                # always once: the only threshold is 0 (a lone p0 column) -- levels that are all zero are still levels
+                d["thr"] = [0.0]
+                d["cdf"] = np.array([rng.randint(0, 8) / 8.0 for _ in range(len(d["times"]) * len(d["leads"]) * len(d["locs"]))]).reshape(len(d["times"]), len(d["leads"]), len(d["locs"]), 1)
             opts = {"location": True if not d["ids_from_zero"] else rng.random() < 0.5, "latlon": rng.random() < 0.85,
                     "altitude": rng.random() < 0.8, "fill": rng.choice([None, None, -9999.0, 1e20])}
             ft = os.path.join(tmp, "d%d_a.dat" % ci)          # names carry no hint of the format
@@ -319,6 +323,42 @@ def _explore(out, tier, seed, facts, replay):
                     bad.append("variable (name, units, x0, x1): %r in the text file, %r after conversion" % (a["variable"], c["variable"]))
                 if bad:
                     out.violation("text2nc:%s" % bad[0].split(":")[0].split(" (")[0], "text2nc does not preserve %s" % "; ".join(bad), {"file": open(ft).read()[:600]})
+        # a missing entry in the time coordinate: the text file has -999 in its unixtime column, the NetCDF file a masked / NaN / -999
+        # time; both readers must deliver the same times and values
+        import netCDF4
+        for enc in ("masked", "nan", "-999"):
+            ftm = os.path.join(tmp, "tmiss.txt")
+            open(ftm, "w").write("unixtime leadtime location obs fcst\n1325376000 0 1 1 2\n-999 0 1 5 6\n1325462400 0 1 3 4.5\n")
+            fnm = os.path.join(tmp, "tmiss_%s.nc" % enc.strip("-"))
+            nc = netCDF4.Dataset(fnm, "w")
+            nc.createDimension("time", None)
+            nc.createDimension("leadtime", 1)
+            nc.createDimension("location", 1)
+            vt = nc.createVariable("time", "f8", ("time",))
+            tv = np.ma.masked_array([1325376000.0, 0.0, 1325462400.0], mask=[0, enc == "masked", 0])
+            if enc == "nan":
+                tv[1] = np.nan
+            if enc == "-999":
+                tv[1] = -999.0
+            vt[:] = tv
+            nc.createVariable("leadtime", "f4", ("leadtime",))[:] = [0.0]
+            nc.createVariable("location", "i4", ("location",))[:] = [1]
+            nc.createVariable("obs", "f4", ("time", "leadtime", "location"))[:] = np.array([1.0, 5.0, 3.0]).reshape(3, 1, 1)
+            nc.createVariable("fcst", "f4", ("time", "leadtime", "location"))[:] = np.array([2.0, 6.0, 4.5]).reshape(3, 1, 1)
+            nc.close()
+            nf += 1
+            res_ = {}
+            for nm_, fpath in (("text", ftm), ("NetCDF", fnm)):
+                try:
+                    dd_ = verif.data.Data([verif.input.get_input(fpath)])
+                    res_[nm_] = ([float(t_) for t_ in dd_.times], [float(x_) for x_ in verif.metric.Mae().compute(dd_, 0, verif.axis.Time(), None)])
+                except datagen.ImplExit as e:
+                    res_[nm_] = ("error", str(e)[:80])
+                except Exception as e:
+                    res_[nm_] = ("exception", "%s: %s" % (type(e).__name__, str(e)[:80]))
+            if res_["text"] != res_["NetCDF"] or res_["text"][0] in ("error", "exception"):
+                out.violation("missing-time-entry", "a file whose second time entry is missing (%s in NetCDF, -999 in text): the text file gives %r, the NetCDF file %r" % (enc, res_["text"], res_["NetCDF"]),
+                              {"encoding": enc})
         # times that are not float32-representable survive the conversion (unix times are stored as f8)
         fn = os.path.join(tmp, "odd.txt")
         open(fn, "w").write("unixtime leadtime location obs fcst\n1325397605 0 1 1 2\n1330473677 0 1 2 3\n")
